@@ -213,6 +213,11 @@ pub fn specs(tier: &str, _prop: &str) -> Vec<ExpSpec> {
     v.extend(name_specs(th));
     // FAT32 cluster numbers above 0xFFFF (high word of the first-cluster field in use)
     v.push(ExpSpec::new(vol::t32_high(), alpha::mixed(512), if th { 4 } else { 3 }));
+    // FAT copies and mirroring modes (builder volumes): three mirrored copies, mirroring off with the second / third
+    // copy active (the independent decoder reads the active copy)
+    v.push(ExpSpec::new(crate::c10::mk(16, 3, 0, 0, 5, "m16-3f"), alpha::mixed(512), if th { 4 } else { 3 }));
+    v.push(ExpSpec::new(crate::c10::mk(32, 2, 0x81, 0, 5, "m32-2f-active1"), alpha::mixed(512), if th { 4 } else { 3 }));
+    v.push(ExpSpec::new(crate::c10::mk(32, 3, 0x82, 0xA, 5, "m32-3f-active2-nibA"), alpha::mixed(512), if th { 4 } else { 3 }));
     // single FAT copy
     for ft in [FatType::Fat12, FatType::Fat32] {
         if let Some(c) = geometry_cfg(ft, 512, 1, 1, 16, 8) {
